@@ -1,10 +1,13 @@
 package sim
 
 import (
+	"context"
 	"encoding/binary"
 	"encoding/json"
 	"fmt"
 	"math/rand/v2"
+	"net/http"
+	"net/http/httptest"
 	"os"
 	"path/filepath"
 	"strconv"
@@ -537,6 +540,69 @@ func replayMain(t *testing.T, path string) {
 			fmt.Printf("OTHER %s: %s\n", x.Signature(), x.Detail)
 		}
 	}
+}
+
+// handlerTransport feeds requests straight into an http.Handler (no sockets).
+type handlerTransport struct{ h http.Handler }
+
+func (t handlerTransport) RoundTrip(req *http.Request) (*http.Response, error) {
+	rec := httptest.NewRecorder()
+	t.h.ServeHTTP(rec, req)
+
+	return rec.Result(), nil
+}
+
+// TestZeroHashHelper (fresh OS process): with a types hash of 0 on both sides, Import through Export must
+// transfer caches whose values need no gob registration.
+func TestZeroHashHelper(t *testing.T) {
+	if os.Getenv("VERIF_ZERO_HASH") == "" {
+		t.Skip()
+	}
+
+	cache.GobTypesHashReset()
+
+	if h := cache.GobTypesHash(); h != 0 {
+		fmt.Printf("ZEROHASH=hash is %d after reset\n", h)
+
+		return
+	}
+
+	ctx := context.Background()
+	cfg := cache.Config{TimeToLive: time.Hour}
+	exp, imp := &cache.HTTPTransfer{}, &cache.HTTPTransfer{}
+
+	s1, d1 := cache.NewShardedMap(cfg.Use), cache.NewShardedMap(cfg.Use)
+	s2, d2 := cache.NewSyncMap(cfg.Use), cache.NewSyncMap(cfg.Use)
+	s3, d3 := cache.NewShardedMapOf[int](cfg.Use), cache.NewShardedMapOf[int](cfg.Use)
+
+	for i := 0; i < 5; i++ {
+		k := []byte(fmt.Sprintf("k%d", i))
+		_ = s1.Write(ctx, k, i)
+		_ = s2.Write(ctx, k, fmt.Sprintf("v%d", i))
+		_ = s3.Write(ctx, k, i)
+	}
+
+	exp.AddCache("one", s1)
+	exp.AddCache("two", s2)
+	exp.AddCache("three", s3.WalkDumpRestorer())
+	imp.AddCache("one", d1)
+	imp.AddCache("two", d2)
+	imp.AddCache("three", d3.WalkDumpRestorer())
+	imp.Transport = handlerTransport{h: exp.Export()}
+
+	if err := imp.Import(ctx, "http://exporter/dump"); err != nil {
+		fmt.Printf("ZEROHASH=Import failed: %v\n", err)
+
+		return
+	}
+
+	if d1.Len() != 5 || d2.Len() != 5 || d3.Len() != 5 {
+		fmt.Printf("ZEROHASH=imported %d, %d and %d of 5 entries per cache\n", d1.Len(), d2.Len(), d3.Len())
+
+		return
+	}
+
+	fmt.Println("ZEROHASH=ok")
 }
 
 // TestHashHelper registers the pool members named in VERIF_HASH_ORDER and prints the hash. The
